@@ -32,7 +32,7 @@ func C06(r *core.Run) {
 		"(R06.3) both bounds of the part index are guarded (compiler-reported bounds sites of the uploader discharged); " +
 		"(R06.4) every listed part is compared with the stored part's ETag and a nil slot, unequal/absent ⇒ InvalidPart; " +
 		"(R06.5) abort cannot reach any Backend method; (R06.6) a part is read completely and length-checked before any lock or slot is touched, stored at its own number with the MD5 of that body; " +
-		"(R06.7) the assembled body is appended only from the listed parts' bodies, stored with the initiation metadata, and the ETag is built from the part ETags and the part count. (R06.8) a part's ETag is stored with its body, and lookup and removal of an upload are one critical section of uploader.mu. (R06.9) a refused complete has not modified the upload's parts, and the request's part list is decoded from the whole body."
+		"(R06.7) the assembled body is appended only from the listed parts' bodies, stored with the initiation metadata, and the ETag is built from the part ETags and the part count. (R06.8) a part's ETag is stored with its body, and lookup and removal of an upload are one critical section of uploader.mu. (R06.9) a refused complete has not modified the upload's parts, and the request's part list is decoded from the whole body. (R01.9, shared) the metadata given at initiation is what is stored: merging never overrides a value the request sent."
 	r.NotDecided = "byte equality of the concatenation, 'most recent upload of each part' as a value statement (follows from overwrite-at-index), strictness of ascending order for duplicate numbers"
 	ctx := oblig.NewCtx(r.P)
 	installNonNilHook(r, ctx)
@@ -45,6 +45,7 @@ func C06(r *core.Run) {
 	rule067(r)
 	rule068(r)
 	rule069(r)
+	rule019(r)
 }
 
 func rule061(r *core.Run) {
